@@ -304,6 +304,18 @@ class CallMixin:
             return self.as_list(c, t, lambda l, el: k("(Py.len {})".format(l), INT))
         return self.expr(e.args[0], env, fin)
 
+    def b_bool(self, e, env, k):
+        self.args_no_kw(e, 1)
+
+        def fin(c, t):
+            t = resolve(t)
+            if isinstance(t, TBool):
+                return k(c, BOOL)
+            if isinstance(t, TInt):
+                return k("(decide ({} ≠ (0 : Int)))".format(c), BOOL)
+            raise Unsupported("bool of " + t.lean())
+        return self.expr(e.args[0], env, fin)
+
     def b_abs(self, e, env, k):
         self.args_no_kw(e, 1)
         return self.expr(e.args[0], env, lambda c, t: self.as_int(c, t, lambda v: k("(Py.abs {})".format(v), INT)))
